@@ -159,6 +159,40 @@ RSumTo(f, n) == IF n = 0 THEN <<0, 1>> ELSE RAdd(f[n], RSumTo(f, n - 1))
 ChiSquare(ob, ex) == RSumTo([i \in Idx(ob) |-> IF ob[i] = 0 /\ ex[i] = 0 THEN <<0, 1>>
                                              ELSE R((ob[i] - ex[i]) * (ob[i] - ex[i]), ex[i])], Len(ob))
 
+(************************ regression and correlation ************************)
+\* Correlation = sum_i w_i (x_i - mx)(y_i - my) / sqrt(sum_i w_i (x_i - mx)^2 * sum_i w_i (y_i - my)^2);
+\* stated through its sign and its square  r^2 = Nxy^2 / (Nxx Nyy)   (domain: Nxx, Nyy > 0)
+CorrSign(x, y, w) == Sgn(CrossN(x, y, w, 1, 1))
+CorrSqFactors(x, y, w) == LET nxy == Abs(CrossN(x, y, w, 1, 1)) IN
+                          <<R(nxy, CentralN(x, w, 2)), R(nxy, CentralN(y, w, 2))>>
+\* least squares line y = alpha + beta x, minimising sum_i w_i (y_i - alpha - beta x_i)^2:
+\*   beta = cov(x, y) / var(x),  alpha = my - beta mx           (domain: Nxx > 0)
+RegBeta(x, y, w) == R(CrossN(x, y, w, 1, 1), CentralN(x, w, 2))
+RegAlpha(x, y, w) == RSub(Mean(y, w), RMul(RegBeta(x, y, w), Mean(x, w)))
+\* through the origin: beta = sum w x y / sum w x^2            (domain: sum w x^2 > 0)
+RegBetaOrigin(x, y, w) == R(Sum([i \in Idx(x) |-> w[i] * x[i] * y[i]]), Sum([i \in Idx(x) |-> w[i] * x[i] * x[i]]))
+\* the weighted residual sum of squares of a line with rational coefficients
+Rss(x, y, w, a, b) == RSumTo([i \in Idx(x) |->
+                         LET e == RSub(RInt(y[i]), RAdd(a, RMul(b, RInt(x[i])))) IN RMul(RInt(w[i]), RMul(e, e))], Len(x))
+\* R^2 = 1 - sum w (y - a - b x)^2 / sum w (y - my)^2   for integer a, b   (domain: Nyy > 0)
+RSquared(x, y, w, a, b) == LET W == WSum(w) IN
+    RSub(<<1, 1>>, R(Sum([i \in Idx(x) |-> w[i] * Pow(y[i] - a - b * x[i], 2)]) * W * W, CentralN(y, w, 2)))
+\* R0^2 = sum w (b x)^2 / sum w y^2                              (domain: sum w y^2 > 0)
+RNoughtSquared(x, y, w, b) == R(Sum([i \in Idx(x) |-> w[i] * b * b * x[i] * x[i]]), Sum([i \in Idx(x) |-> w[i] * y[i] * y[i]]))
+\* Kendall tau-a over pairs i < j weighted by w_i w_j, stated only for samples without
+\* ties (the documentation does not say how ties are counted)
+NoTies(x) == \A i, j \in Idx(x) : i # j => x[i] # x[j]
+PairSum(x, F(_, _)) == Sum([i \in Idx(x) |-> Sum([j \in Idx(x) |-> IF i < j THEN F(i, j) ELSE 0])])
+Kendall(x, y, w) == LET num(i, j) == w[i] * w[j] * Sgn(x[j] - x[i]) * Sgn(y[j] - y[i])
+                        den(i, j) == w[i] * w[j]
+                    IN R(PairSum(x, num), PairSum(x, den))
+
+(********************************* sorting **********************************)
+\* the sorted rearrangement of a sequence (the unique non-decreasing sequence
+\* with the same number of occurrences of every value)
+Occ(s, v) == Cardinality({i \in Idx(s) : s[i] = v})
+SortedOf(s) == CHOOSE t \in [Idx(s) -> Rng(s)] : IsSorted(t) /\ \A v \in Rng(s) : Occ(t, v) = Occ(s, v)
+
 (***************************** sequence helpers *****************************)
 \* replication of a weighted sample: x_i repeated w_i times
 RECURSIVE Repl(_, _, _)
